@@ -39,9 +39,10 @@ PLAN = {
     "C08": dict(
         title="Announced layer shapes equal produced shapes; transitions lose nothing",
         level="proof",
-        verus=["C08_output_size.rs", "C02_convolve.rs", "C02_deconv_forward.rs"],
+        verus=["C08_output_size.rs", "C08_flat_accept.rs", "C02_convolve.rs", "C02_deconv_forward.rs"],
         kani=True,
-        undecided_clauses=["builder chaining over layer sequences and flat-size acceptance: units under construction"],
+        undecided_clauses=["builder chaining over layer sequences (next inputs = previous outputs, flatten flag): read, not verified",
+                           "flat sizes >= 2^24 (the cast to f32 is no longer exact there)"],
     ),
     "C03": dict(
         title="Optimizer steps follow the documented update rules for every history",
